@@ -264,6 +264,8 @@ pub fn run_case(case: &LfoCase, mask: u32, tick_budget: u64, stats: &mut Stats) 
     let mut nt11 = false;
     let mut nt12 = false;
     let mut nt10 = false;
+    // (phase counter, sine, triangle) as read after the most recent tick; dropped by set_phase / reset
+    let mut last_read: Option<(u32, f32, f32)> = None;
 
     // FreqBurst is a macro: expand it into primitive ops first
     let mut expanded: Vec<LfoOp> = Vec::with_capacity(case.ops.len());
@@ -429,6 +431,15 @@ pub fn run_case(case: &LfoCase, mask: u32, tick_budget: u64, stats: &mut Stats) 
                         let d_now = acc1.wrapping_sub(acc0) & (TWO24 - 1);
                         let nominal = *nominal_step.get_or_insert(d_now);
                         check_step(acc0, acc1, Some(nominal), s0, s1, t0, t1, step, stats)?;
+                        // what a caller sees "between consecutive ticks" is the value read after the previous tick, which
+                        // must agree with this one even if set_frequency was called in between (it does not move the phase)
+                        if let Some((pa, ps, pt)) = last_read {
+                            if pa == acc0 && (ps.to_bits() != s0.to_bits() || pt.to_bits() != t0.to_bits()) {
+                                stats.count("label.pair_across_frequency_change_reread_differs", 1);
+                                check_step(acc0, acc1, Some(nominal), ps, s1, pt, t1, step, stats)?;
+                            }
+                        }
+                        last_read = Some((acc1, s1, t1));
                         stats.count("pairs_checked", 1);
                         if c12_interesting_pair(acc0, acc1) {
                             stats.count("pairs_interesting", 1);
